@@ -11,6 +11,9 @@ structure Net where
   stream : Bytes
   /-- `k`-th `recv` delivers at most `sched[k]` (≥ 1) bytes; when exhausted, as many as asked for -/
   sched : List Nat
+  /-- what the server will say *in reaction* to the client's next writes (one segment per `sendall`,
+      one for a completed TLS handshake); never touched by the reader -/
+  later : List Bytes := []
   deriving Repr, Inhabited
 
 namespace Net
@@ -20,7 +23,13 @@ def recv (n : Nat) (net : Net) : Option (Bytes × Net) :=
   let cap := match net.sched with
     | [] => n
     | k :: _ => min n (max k 1)
-  some (net.stream.take cap, { stream := net.stream.drop cap, sched := net.sched.tail })
+  some (net.stream.take cap, { net with stream := net.stream.drop cap, sched := net.sched.tail })
+
+/-- the peer reacts to something the client did: the next reply segment becomes readable -/
+def release (net : Net) : Net :=
+  match net.later with
+  | [] => net
+  | seg :: rest => { net with stream := net.stream ++ seg, later := rest }
 end Net
 
 /-- why a read stopped abnormally -/
